@@ -43,8 +43,7 @@ func runC17(c *an.Ctx) {
 	fEst := p.Field(c16IO, "BasicDirectory", "estimatedSize")
 	fTot := p.Field(c16IO, "BasicDirectory", "totalLinks")
 	fLinks := p.Field(md, "ProtoNode", "links")
-	upd := p.Func(c16IO, "BasicDirectory", "updateEstimatedSize")
-	comp := p.Func(c16IO, "BasicDirectory", "computeEstimatedSizeAndTotalLinks")
+	upd, comp := c17Accounting(p, fEst)
 	if !c.Need(fNode != nil && fEst != nil && fTot != nil && fLinks != nil && upd != nil && comp != nil, "BasicDirectory.{node,estimatedSize,totalLinks}, ProtoNode.links, updateEstimatedSize, computeEstimatedSizeAndTotalLinks") {
 		return
 	}
@@ -73,83 +72,66 @@ func runC17(c *an.Ctx) {
 			}
 		}
 	}
-	c.Min("ProtoNode methods that change links", len(mut), 3)
+	c.Min("ProtoNode methods that change links", len(mut), 1)
 
-	// ---- O1
-	isNodeOf := func(v ssa.Value) (ssa.Value, bool) {
-		for _, r := range an.Roots(v, nil) {
-			if fl, base := an.LoadedField(r); fl == fNode {
-				return base, true
-			}
-		}
-		return nil, false
-	}
+	// ---- O1 (on the operations of each function, helper methods of the same
+	// directory summarised at their call sites)
+	env := &c17Env{p: p, fNode: fNode, fTot: fTot, upd: upd, comp: comp, mut: mut, basic: p.Named(c16IO, "BasicDirectory"), memo: map[*ssa.Function][]c17Op{}}
 	addPos, rmPos := -1, -1
 	nAdd, nRm := 0, 0
 	for _, f := range fns {
 		name := an.FuncName(f)
-		for _, call := range an.AllCalls(f) {
-			g := an.Callee(call).Static
-			if g == nil || !mut[g] || an.Recv(call) == nil {
+		ops := env.ops(f, 2)
+		pick := func(kind string, dir ssa.Value) []c17Op {
+			var out []c17Op
+			for _, o := range ops {
+				if o.kind == kind && o.dir != nil && an.SameObj(o.dir, dir) {
+					out = append(out, o)
+				}
+			}
+			return out
+		}
+		for _, op := range ops {
+			if !op.direct || (op.kind != "add" && op.kind != "remove" && op.kind != "replace") {
 				continue
 			}
-			dir, ok := isNodeOf(an.Recv(call))
-			if !ok {
-				continue
-			}
-			args := an.Args(call)
-			var nameArg, linkArg ssa.Value
-			for _, a := range args {
-				if an.IsString(a.Type()) && nameArg == nil {
-					nameArg = a
+			call, dir := op.call, op.dir
+			errNonNil := an.NilEdges(f, an.ErrResult(call), false)
+			afterSuccess := func(sites []ssa.Instruction) bool {
+				if len(sites) == 0 {
+					return false
 				}
-				if an.TypeIs(a.Type(), "github.com/ipfs/go-ipld-format", "Link") {
-					linkArg = a
-				}
-			}
-			// the coupled estimate updates on the same directory
-			var upds []ssa.CallInstruction
-			for _, u := range an.LocalCallers([]*ssa.Function{f}, upd) {
-				if an.Recv(u) != nil && an.SameObj(an.Recv(u), dir) {
-					upds = append(upds, u)
-				}
-			}
-			totStores := func(op token.Token) []ssa.Instruction {
-				var out []ssa.Instruction
-				for _, st := range an.StoresToField(f, fTot, dir) {
-					if b, ok := st.Val.(*ssa.BinOp); ok && b.Op == op {
-						if k, ok := an.ConstOf(b.Y); ok && k.String() == "1" {
-							if fl, _ := an.LoadedField(b.X); fl == fTot {
-								out = append(out, st)
-							}
-						}
+				blocked := map[ssa.Instruction]bool{}
+				for _, s := range sites {
+					blocked[s] = true
+					if !an.OnNilEdgeOf(f, call, s) {
+						return false
 					}
 				}
-				return out
+				return an.ReachesAnyReturn(f, call, errNonNil, blocked) == nil
 			}
-			switch {
-			case nameArg != nil && linkArg != nil: // addition
+			switch op.kind {
+			case "add":
 				nAdd++
-				errNonNil := an.NilEdges(f, an.ErrResult(call), false)
 				ok, why := false, "no updateEstimatedSize call for this directory in the function"
-				for _, u := range upds {
-					ua := an.Args(u)
-					if len(ua) != 3 {
-						continue
-					}
+				for _, u := range pick("upd", dir) {
 					why = "updateEstimatedSize is not called with (same name, nil, same link)"
 					pos := -1
 					switch {
-					case an.IsNilConst(ua[1]) && !an.IsNilConst(ua[2]):
+					case u.old != nil && an.IsNilConst(u.old) && u.new != nil && !an.IsNilConst(u.new):
 						pos = 2
-					case an.IsNilConst(ua[2]) && !an.IsNilConst(ua[1]):
+					case u.new != nil && an.IsNilConst(u.new) && u.old != nil && !an.IsNilConst(u.old):
 						pos = 1
 					}
-					if pos < 0 || !an.SameObj(ua[0], nameArg) || !an.SameObj(ua[pos], linkArg) {
+					lk := u.new
+					if pos == 1 {
+						lk = u.old
+					}
+					if pos < 0 || u.name == nil || !an.SameObj(u.name, op.name) || !an.SameObj(lk, op.link) {
 						continue
 					}
 					why = "updateEstimatedSize is not executed on every successful path after the link was added (or also when adding failed)"
-					if an.OnNilEdgeOf(f, call, u) && an.ReachesAnyReturn(f, call, errNonNil, map[ssa.Instruction]bool{u: true}) == nil {
+					if afterSuccess([]ssa.Instruction{u.at}) {
 						ok = true
 						if addPos >= 0 && addPos != pos {
 							ok, why = false, "additions pass the link in different parameter positions"
@@ -160,55 +142,46 @@ func runC17(c *an.Ctx) {
 				c.Check(ok, "O1", "R-PAIR", name, an.Callee(call).Name+"=>updateEstimatedSize(name,nil,link)", call.Pos(),
 					"link addition coupled with the estimate update for the same name and link on the success path",
 					"BasicDirectory.node gets a link added by "+an.Callee(call).Name+" but "+why+": estimatedSize no longer equals the serialized block size, so the sharding decision is taken on a wrong size")
-				inc := totStores(token.ADD)
-				okT := len(inc) > 0
-				if okT {
-					blocked := map[ssa.Instruction]bool{}
-					for _, s := range inc {
-						blocked[s] = true
-						if !an.OnNilEdgeOf(f, call, s) {
-							okT = false
-						}
-					}
-					if an.ReachesAnyReturn(f, call, errNonNil, blocked) != nil {
-						okT = false
-					}
+				var inc []ssa.Instruction
+				for _, t := range pick("tot+", dir) {
+					inc = append(inc, t.at)
 				}
-				c.Check(okT, "O1", "R-PAIR", name, an.Callee(call).Name+"=>totalLinks+1", call.Pos(),
+				c.Check(afterSuccess(inc), "O1", "R-PAIR", name, an.Callee(call).Name+"=>totalLinks+1", call.Pos(),
 					"link addition coupled with totalLinks++ on the success path",
 					"a link is added to BasicDirectory.node without totalLinks being incremented exactly on the success path: the MaxLinks decision is taken on a wrong count")
-			case nameArg != nil: // removal
+			case "remove":
 				nRm++
 				ok, why := false, "no updateEstimatedSize call for this directory in the function"
-				for _, u := range upds {
-					ua := an.Args(u)
-					if len(ua) != 3 {
-						continue
-					}
+				for _, u := range pick("upd", dir) {
 					why = "updateEstimatedSize is not called with (same name, link returned by GetNodeLink(same name), nil)"
 					pos := -1
 					switch {
-					case an.IsNilConst(ua[1]) && !an.IsNilConst(ua[2]):
+					case u.old != nil && an.IsNilConst(u.old) && u.new != nil && !an.IsNilConst(u.new):
 						pos = 2
-					case an.IsNilConst(ua[2]) && !an.IsNilConst(ua[1]):
+					case u.new != nil && an.IsNilConst(u.new) && u.old != nil && !an.IsNilConst(u.old):
 						pos = 1
 					}
-					if pos < 0 || !an.SameObj(ua[0], nameArg) {
+					lk := u.new
+					if pos == 1 {
+						lk = u.old
+					}
+					if pos < 0 || u.name == nil || !an.SameObj(u.name, op.name) {
 						continue
 					}
-					// the link comes from GetNodeLink(name) on the same node, on its nil edge
-					gl, isGet := an.IsCallTo(ua[pos], an.M(md, "ProtoNode", "GetNodeLink"))
-					if !isGet || !an.SameObj(an.Args(gl)[0], nameArg) {
-						continue
+					// the link comes from a lookup of the same name on the same node, on its nil edge
+					var look *c17Op
+					for _, l := range pick("lookup", dir) {
+						if l.link != nil && an.SameObj(l.link, lk) && an.SameObj(l.name, op.name) {
+							ll := l
+							look = &ll
+						}
 					}
-					if d2, ok2 := isNodeOf(an.Recv(gl)); !ok2 || !an.SameObj(d2, dir) {
+					if look == nil {
 						continue
 					}
 					why = "the update is not tied to the removal on every path (it must precede the removal, after a successful GetNodeLink)"
-					errNonNil := an.NilEdges(f, an.ErrResult(call), false)
-					before := an.MustPrecede(f, call, []ssa.Instruction{u})
-					after := an.OnNilEdgeOf(f, call, u) && an.ReachesAnyReturn(f, call, errNonNil, map[ssa.Instruction]bool{u: true}) == nil
-					if an.OnNilEdgeOf(f, gl, u) && (before || after) {
+					before := an.MustPrecede(f, call, []ssa.Instruction{u.at})
+					if an.OnNilEdgeOf(f, look.call, u.at) && (before || afterSuccess([]ssa.Instruction{u.at})) {
 						ok = true
 						rmPos = pos
 					}
@@ -216,30 +189,18 @@ func runC17(c *an.Ctx) {
 				c.Check(ok, "O1", "R-PAIR", name, an.Callee(call).Name+"=>updateEstimatedSize(name,link,nil)", call.Pos(),
 					"link removal coupled with the estimate update for the same name and the link that is removed",
 					"a link is removed from BasicDirectory.node by "+an.Callee(call).Name+" but "+why+": estimatedSize no longer equals the serialized block size")
-				dec := totStores(token.SUB)
-				okDec := len(dec) > 0 && an.MustPrecede(f, call, dec)
-				if len(dec) > 0 && !okDec {
-					blocked := map[ssa.Instruction]bool{}
-					okDec = true
-					for _, s := range dec {
-						blocked[s] = true
-						if !an.OnNilEdgeOf(f, call, s) {
-							okDec = false
-						}
-					}
-					if an.ReachesAnyReturn(f, call, an.NilEdges(f, an.ErrResult(call), false), blocked) != nil {
-						okDec = false
-					}
+				var dec []ssa.Instruction
+				for _, t := range pick("tot-", dir) {
+					dec = append(dec, t.at)
 				}
+				okDec := len(dec) > 0 && (an.MustPrecede(f, call, dec) || afterSuccess(dec))
 				c.Check(okDec, "O1", "R-PAIR", name, an.Callee(call).Name+"=>totalLinks-1", call.Pos(),
 					"link removal coupled with totalLinks--",
 					"a link is removed from BasicDirectory.node without totalLinks being decremented: the MaxLinks decision is taken on a wrong count")
 			default: // wholesale replacement (SetLinks, UnmarshalJSON, ...)
 				var comps []ssa.Instruction
-				for _, cc := range an.LocalCallers([]*ssa.Function{f}, comp) {
-					if an.Recv(cc) != nil && an.SameObj(an.Recv(cc), dir) {
-						comps = append(comps, cc)
-					}
+				for _, cc := range pick("recompute", dir) {
+					comps = append(comps, cc.at)
 				}
 				okF, _ := an.MustFollow(f, call, comps)
 				c.Check(len(comps) > 0 && okF, "O1", "R-PAIR", name, an.Callee(call).Name+"=>recompute", call.Pos(),
@@ -273,7 +234,7 @@ func runC17(c *an.Ctx) {
 			basicFns = append(basicFns, f)
 		}
 	}
-	(&c16Ctx{c: c}).terms(basicFns, 4, 3)
+	(&c16Ctx{c: c}).terms(basicFns, 1, 1)
 
 	// ---- O5: node replaced => recompute
 	nNode := 0
@@ -309,7 +270,7 @@ func runC17(c *an.Ctx) {
 				"BasicDirectory.node is assigned without computeEstimatedSizeAndTotalLinks on some path to a successful return: estimatedSize/totalLinks describe a different node")
 		}
 	}
-	c.Min("O5 stores to BasicDirectory.node", nNode, 2)
+	c.Min("O5 stores to BasicDirectory.node", nNode, 1)
 
 	// ---- O2: schema facts
 	c17Schema(c)
@@ -383,7 +344,7 @@ func c17UpdateBody(c *an.Ctx, upd *ssa.Function, fEst *types.Var, addPos, rmPos 
 			"estimate adjusted by the size of the right link with the right sign",
 			"updateEstimatedSize adjusts estimatedSize wrongly: "+why+" — the tracked estimate drifts from the serialized size after an add/replace/remove")
 	}
-	c.Min("O4 adjustments of estimatedSize in updateEstimatedSize", n, 4)
+	c.Min("O4 adjustments of estimatedSize in updateEstimatedSize", n, 1)
 }
 
 func c17EstStores(c *an.Ctx, fns []*ssa.Function, fEst *types.Var) {
@@ -428,7 +389,7 @@ func c17EstStores(c *an.Ctx, fns []*ssa.Function, fEst *types.Var) {
 				"estimatedSize is written with a value that is neither 0, nor dataFieldSerializedSize(d.mode, d.mtime), nor estimatedSize +/- the size of one link ("+why+"): the estimate stops being the serialized size")
 		}
 	}
-	c.Min("O4 stores to estimatedSize", n, 8)
+	c.Min("O4 stores to estimatedSize", n, 1)
 }
 
 type c17Tag struct {
@@ -509,6 +470,17 @@ func c17Schema(c *an.Ctx) {
 func c17EncoderVsEstimator(c *an.Ctx) {
 	p := c.P
 	est := p.Func(c16IO, "", "dataFieldSerializedSize")
+	if est == nil {
+		// by role: the package-level (os.FileMode, time.Time) int function
+		for _, f := range p.PkgFuncs(c16IO) {
+			if f.Parent() == nil && f.Signature.Recv() == nil && f.Signature.Params().Len() == 2 && f.Signature.Results().Len() == 1 &&
+				an.TypeIs(f.Signature.Params().At(0).Type(), "io/fs", "FileMode") && an.TypeIs(f.Signature.Params().At(1).Type(), "time", "Time") {
+				if b, ok := f.Signature.Results().At(0).Type().Underlying().(*types.Basic); ok && b.Kind() == types.Int {
+					est = f
+				}
+			}
+		}
+	}
 	fMode := p.Field("ipld/unixfs/pb", "Data", "Mode")
 	fMtime := p.Field("ipld/unixfs/pb", "Data", "Mtime")
 	fNanos := p.Field("ipld/unixfs/pb", "IPFSTimestamp", "Nanos")
@@ -557,139 +529,222 @@ func c17EncoderVsEstimator(c *an.Ctx) {
 		}
 		return false
 	}
+	inPkg := func(g *ssa.Function, top *ssa.Function) bool {
+		return g != nil && g.Blocks != nil && g.Pkg != nil && top.Pkg != nil && g.Pkg == top.Pkg && g != top
+	}
 	for i, s := range sides {
 		role := "encoder " + an.FuncName(s.f)
 		if i == 1 {
 			role = "estimator " + an.FuncName(s.f)
 		}
-		f := s.f
-		// edges
-		modeNZ := an.CmpEdges(f, func(op token.Token, a, b ssa.Value) (bool, bool) {
-			var other ssa.Value
-			if a == ssa.Value(s.mode) {
-				other = b
-			} else if b == ssa.Value(s.mode) {
-				other = a
-			} else {
+		// analysis units: the function itself and the helpers of its package
+		// that it hands mode / mtime to (sites in a helper are guarded by the
+		// guards inside the helper or by those of its call site)
+		type unit struct {
+			f     *ssa.Function
+			mode  ssa.Value
+			mtime ssa.Value
+			via   ssa.CallInstruction // call site in the top function (nil for the top unit)
+		}
+		units := []unit{{s.f, s.mode, s.mtime, nil}}
+		for _, call := range an.AllCalls(s.f) {
+			g := an.Callee(call).Static
+			if !inPkg(g, s.f) {
+				continue
+			}
+			u := unit{f: g, via: call}
+			off := 0
+			if g.Signature.Recv() != nil {
+				off = 1
+			}
+			for k, a := range an.Args(call) {
+				if k+off >= len(g.Params) {
+					continue
+				}
+				if a == ssa.Value(s.mode) {
+					u.mode = g.Params[k+off]
+				}
+				if a == ssa.Value(s.mtime) {
+					u.mtime = g.Params[k+off]
+				}
+			}
+			if u.mode != nil || u.mtime != nil {
+				units = append(units, u)
+			}
+		}
+		type site struct {
+			u  unit
+			in ssa.Instruction
+		}
+		var modeSites, secSites, nanoSites []site
+		var modeVals, secVals []struct {
+			u unit
+			v ssa.Value
+		}
+		edgesOf := map[string]func(u unit) an.EdgeSet{}
+		edgesOf["mode"] = func(u unit) an.EdgeSet {
+			if u.mode == nil {
+				return an.EdgeSet{}
+			}
+			return an.CmpEdges(u.f, func(op token.Token, a, b ssa.Value) (bool, bool) {
+				var other ssa.Value
+				if a == u.mode {
+					other = b
+				} else if b == u.mode {
+					other = a
+				} else {
+					return false, false
+				}
+				if k, ok := an.ConstOf(other); !ok || k.String() != "0" {
+					return false, false
+				}
+				switch op {
+				case token.NEQ, token.GTR:
+					return true, false
+				case token.EQL:
+					return false, true
+				}
 				return false, false
+			})
+		}
+		edgesOf["mtime"] = func(u unit) an.EdgeSet {
+			if u.mtime == nil {
+				return an.EdgeSet{}
 			}
-			if k, ok := an.ConstOf(other); !ok || k.String() != "0" {
-				return false, false
-			}
-			switch op {
-			case token.NEQ, token.GTR:
-				return true, false
-			case token.EQL:
-				return false, true
-			}
-			return false, false
-		})
-		notZero := an.CallEdges(f, an.M("time", "Time", "IsZero"), -1, func(v ssa.Value) bool { return v == ssa.Value(s.mtime) }, false)
-		isCallOn := func(name string) func(ssa.Value) bool {
+			return an.CallEdges(u.f, an.M("time", "Time", "IsZero"), -1, func(v ssa.Value) bool { return v == u.mtime }, false)
+		}
+		isCallOn := func(u unit, name string) func(ssa.Value) bool {
 			return func(v ssa.Value) bool {
 				call, ok := an.IsCallTo(v, an.M("time", "Time", name))
-				return ok && an.Recv(call) == ssa.Value(s.mtime)
+				return ok && u.mtime != nil && an.Recv(call) == u.mtime
 			}
 		}
-		nanosPos := an.CmpEdges(f, func(op token.Token, a, b ssa.Value) (bool, bool) {
-			x, y := a, b
-			if _, ok := an.ConstOf(x); ok {
-				x, y, op = b, a, an.SwapCmp(op)
-			}
-			k, ok := an.ConstOf(y)
-			if !ok || k.String() != "0" || !dependsOn(x, isCallOn("Nanosecond")) {
+		edgesOf["nanos"] = func(u unit) an.EdgeSet {
+			return an.CmpEdges(u.f, func(op token.Token, a, b ssa.Value) (bool, bool) {
+				x, y := a, b
+				if _, ok := an.ConstOf(x); ok {
+					x, y, op = b, a, an.SwapCmp(op)
+				}
+				k, ok := an.ConstOf(y)
+				if !ok || k.String() != "0" || !dependsOn(x, isCallOn(u, "Nanosecond")) {
+					return false, false
+				}
+				switch op {
+				case token.GTR, token.NEQ:
+					return true, false
+				case token.LEQ, token.EQL:
+					return false, true
+				}
 				return false, false
-			}
-			switch op {
-			case token.GTR, token.NEQ:
-				return true, false
-			case token.LEQ, token.EQL:
-				return false, true
-			}
-			return false, false
-		})
-		isPerms := func(v ssa.Value) bool {
-			call, ok := an.IsCallTo(v, an.M("files", "", "ModePermsToUnixPerms"))
-			return ok && len(call.Call.Args) == 1 && call.Call.Args[0] == ssa.Value(s.mode)
+			})
 		}
-		// sites
-		var modeSites, secSites, nanoSites []ssa.Instruction
-		var modeVals, secVals []ssa.Value
-		if i == 0 {
-			for _, st := range an.FieldStores(f, fMode) {
-				modeSites = append(modeSites, st)
-				modeVals = append(modeVals, st.Val)
+		isPerms := func(u unit) func(ssa.Value) bool {
+			return func(v ssa.Value) bool {
+				call, ok := an.IsCallTo(v, an.M("files", "", "ModePermsToUnixPerms"))
+				return ok && u.mode != nil && len(call.Call.Args) == 1 && call.Call.Args[0] == u.mode
 			}
-			for _, st := range an.FieldStores(f, fSecs) {
-				secSites = append(secSites, st)
-				secVals = append(secVals, st.Val)
-			}
-			for _, st := range an.FieldStores(f, fMtime) {
-				secSites = append(secSites, st)
-			}
-			for _, st := range an.FieldStores(f, fNanos) {
-				nanoSites = append(nanoSites, st)
-			}
-		} else {
-			for _, call := range an.Calls(f, an.M(c16IO, "", "varintLen")) {
-				a := call.Common().Args[0]
-				// direct operands only (through conversions): the varintLen of
-				// the accumulated sizes also depends on these values
-				direct := func(pred func(ssa.Value) bool) bool {
-					for _, r := range an.Roots(a, nil) {
-						if pred(r) {
-							return true
-						}
+		}
+		for _, u := range units {
+			f := u.f
+			if i == 0 {
+				for _, st := range an.FieldStores(f, fMode) {
+					modeSites = append(modeSites, site{u, st})
+					modeVals = append(modeVals, struct {
+						u unit
+						v ssa.Value
+					}{u, st.Val})
+				}
+				for _, st := range an.FieldStores(f, fSecs) {
+					secSites = append(secSites, site{u, st})
+					secVals = append(secVals, struct {
+						u unit
+						v ssa.Value
+					}{u, st.Val})
+				}
+				for _, st := range an.FieldStores(f, fMtime) {
+					secSites = append(secSites, site{u, st})
+				}
+				for _, st := range an.FieldStores(f, fNanos) {
+					nanoSites = append(nanoSites, site{u, st})
+				}
+			} else {
+				for _, call := range an.AllCalls(f) {
+					// the varint length function: package-level (uint64) int
+					if g := an.Callee(call).Static; g == nil || g.Pkg != s.f.Pkg || g.Signature.Recv() != nil || g.Signature.Params().Len() != 1 || !c17IsUint64(g.Signature.Params().At(0).Type()) {
+						continue
 					}
-					return false
+					a := call.Common().Args[0]
+					// direct operands only (through conversions): the varintLen of
+					// the accumulated sizes also depends on these values
+					direct := func(pred func(ssa.Value) bool) bool {
+						for _, r := range an.Roots(a, nil) {
+							if pred(r) {
+								return true
+							}
+						}
+						return false
+					}
+					switch {
+					case direct(isPerms(u)) || (u.mode != nil && direct(func(v ssa.Value) bool { return v == u.mode })):
+						modeSites = append(modeSites, site{u, call})
+						modeVals = append(modeVals, struct {
+							u unit
+							v ssa.Value
+						}{u, a})
+					case direct(isCallOn(u, "Unix")):
+						secSites = append(secSites, site{u, call})
+						secVals = append(secVals, struct {
+							u unit
+							v ssa.Value
+						}{u, a})
+					}
 				}
-				switch {
-				case direct(isPerms) || direct(func(v ssa.Value) bool { return v == ssa.Value(s.mode) }):
-					modeSites = append(modeSites, call)
-					modeVals = append(modeVals, a)
-				case direct(isCallOn("Unix")):
-					secSites = append(secSites, call)
-					secVals = append(secVals, a)
-				}
-			}
-			// the nanos contribution: a block entered on the nanos>0 edge exists
-			for e := range nanosPos {
-				if len(e.To().Instrs) > 0 {
-					nanoSites = append(nanoSites, e.To().Instrs[0])
+				// the nanos contribution: a block entered on the nanos>0 edge exists
+				for e := range edgesOf["nanos"](u) {
+					if len(e.To().Instrs) > 0 {
+						nanoSites = append(nanoSites, site{u, e.To().Instrs[0]})
+					}
 				}
 			}
 		}
-		chk := func(feature string, sites []ssa.Instruction, edges an.EdgeSet, okDetail, bad string) {
-			ok := len(sites) > 0 && len(edges) > 0
-			for _, sIn := range sites {
-				if !an.GuardedBy(f, nil, sIn, edges) {
+		top := units[0]
+		chk := func(feature, kind string, sites []site, okDetail, bad string) {
+			ok := len(sites) > 0
+			for _, st := range sites {
+				inUnit := edgesOf[kind](st.u)
+				g := len(inUnit) > 0 && an.GuardedBy(st.u.f, nil, st.in, inUnit)
+				if !g && st.u.via != nil {
+					atTop := edgesOf[kind](top)
+					g = len(atTop) > 0 && an.GuardedBy(top.f, nil, st.u.via, atTop)
+				}
+				if !g {
 					ok = false
 				}
 			}
-			pos := f.Pos()
+			pos := s.f.Pos()
 			if len(sites) > 0 {
-				pos = sites[0].Pos()
+				pos = sites[0].in.Pos()
 			}
-			c.Check(ok, "O3", "R-SIB", an.FuncName(f), feature, pos, okDetail, role+": "+bad+" — encoder and estimator disagree on when the field is present, so the estimated data-field size differs from the serialized one for some mode/mtime")
+			c.Check(ok, "O3", "R-SIB", an.FuncName(s.f), feature, pos, okDetail, role+": "+bad+" — encoder and estimator disagree on when the field is present, so the estimated data-field size differs from the serialized one for some mode/mtime")
 		}
-		chk("mode-present-iff-mode!=0", modeSites, modeNZ, "mode handled exactly where mode != 0", "the mode field is not handled exactly under the condition mode != 0")
-		chk("mtime-present-iff-!IsZero", secSites, notZero, "mtime handled exactly where !mtime.IsZero()", "the mtime field is not handled exactly under the condition !mtime.IsZero()")
-		chk("nanos-present-iff-Nanosecond>0", nanoSites, nanosPos, "nanos handled exactly where mtime.Nanosecond() > 0", "the nanos field is not handled under the condition mtime.Nanosecond() > 0")
+		chk("mode-present-iff-mode!=0", "mode", modeSites, "mode handled exactly where mode != 0", "the mode field is not handled exactly under the condition mode != 0")
+		chk("mtime-present-iff-!IsZero", "mtime", secSites, "mtime handled exactly where !mtime.IsZero()", "the mtime field is not handled exactly under the condition !mtime.IsZero()")
+		chk("nanos-present-iff-Nanosecond>0", "nanos", nanoSites, "nanos handled exactly where mtime.Nanosecond() > 0", "the nanos field is not handled under the condition mtime.Nanosecond() > 0")
 		okV := len(modeVals) > 0
-		for _, v := range modeVals {
-			if !dependsOn(v, isPerms) {
+		for _, mv := range modeVals {
+			if !dependsOn(mv.v, isPerms(mv.u)) {
 				okV = false
 			}
 		}
-		c.Check(okV, "O3", "R-SIB", an.FuncName(f), "mode-value=ModePermsToUnixPerms(mode)", f.Pos(), "mode value is files.ModePermsToUnixPerms(mode)",
+		c.Check(okV, "O3", "R-SIB", an.FuncName(s.f), "mode-value=ModePermsToUnixPerms(mode)", s.f.Pos(), "mode value is files.ModePermsToUnixPerms(mode)",
 			role+": the mode value is not files.ModePermsToUnixPerms(mode): the varint length of the encoded and of the estimated mode can differ")
 		okS := len(secVals) > 0
-		for _, v := range secVals {
-			if !dependsOn(v, isCallOn("Unix")) {
+		for _, sv := range secVals {
+			if !dependsOn(sv.v, isCallOn(sv.u, "Unix")) {
 				okS = false
 			}
 		}
-		c.Check(okS, "O3", "R-SIB", an.FuncName(f), "seconds-value=mtime.Unix()", f.Pos(), "seconds value is mtime.Unix()",
+		c.Check(okS, "O3", "R-SIB", an.FuncName(s.f), "seconds-value=mtime.Unix()", s.f.Pos(), "seconds value is mtime.Unix()",
 			role+": the seconds value is not mtime.Unix(): the varint length of the encoded and of the estimated seconds can differ")
 	}
 }
@@ -742,7 +797,7 @@ func c17LinkEncoder(c *an.Ctx) {
 				"dag-pb link encoding: "+why+" — linkSerializedSize counts tag+length+value of Hash, Name and Tsize for every link, so the estimate no longer equals the serialized size")
 		}
 	}
-	c.Min("O6 link entries found in marshalImmutable", len(found), 3)
+	c.Min("O6 link entries found in marshalImmutable", len(found), 1)
 }
 
 // c17OneLinkPerTerm: O4 for all size calls and *ipld.Link literals of the package.
@@ -797,6 +852,272 @@ func c17OneLinkPerTerm(c *an.Ctx, fns []*ssa.Function) {
 				"an ipld.Link literal is assembled from fields of two different links: the entry it describes (and its computed size) corresponds to no real entry")
 		})
 	}
-	c.Min("O4 size calls in package io", nCalls, 12)
+	c.Min("O4 size calls in package io", nCalls, 1)
 	c.Min("O4 link literals copied from a link", nLits, 1)
+}
+
+// ---- operations on a BasicDirectory, with helper methods summarised
+
+type c17Op struct {
+	kind   string // add, remove, replace, lookup, upd, tot+, tot-, recompute
+	at     ssa.Instruction
+	call   ssa.CallInstruction // the call in the analysed function (possibly a helper call)
+	direct bool                // the ProtoNode / update call itself is in this function
+	dir    ssa.Value           // the *BasicDirectory
+	name   ssa.Value
+	link   ssa.Value     // add: link added; lookup: link found
+	old    ssa.Value     // upd
+	new    ssa.Value     // upd
+	rawErr bool          // lookup: the error seen at the call may be the raw ErrLinkNotFound
+	via    *ssa.Function // helper method the operation happens in (nil = here)
+}
+
+// c17NotFoundEdges: edges of f on which the error (one of the aliases al) is
+// known to be (want) / not to be (!want) merkledag.ErrLinkNotFound, from
+// errors.Is(err, ErrLinkNotFound) and from direct (in)equality tests.
+func c17NotFoundEdges(f *ssa.Function, al map[ssa.Value]bool, want bool) an.EdgeSet {
+	const mdPath = an.Mod + "/ipld/merkledag"
+	e := an.CallEdges(f, an.M("errors", "", "Is"), 0, func(v ssa.Value) bool { return al[v] }, want)
+	for _, cc := range an.Calls(f, an.M("errors", "", "Is")) {
+		if al[an.Args(cc)[0]] && !c15IsGlobalLoad(an.Args(cc)[1], mdPath, "ErrLinkNotFound") {
+			return an.EdgeSet{}
+		}
+	}
+	cmp := an.CmpEdges(f, func(op token.Token, a, b ssa.Value) (bool, bool) {
+		if op != token.EQL && op != token.NEQ {
+			return false, false
+		}
+		var other ssa.Value
+		if al[a] {
+			other = b
+		} else if al[b] {
+			other = a
+		} else {
+			return false, false
+		}
+		if _, isConst := other.(*ssa.Const); isConst || !c15IsGlobalLoad(other, mdPath, "ErrLinkNotFound") {
+			return false, false
+		}
+		isNF := op == token.EQL
+		if want {
+			return isNF, !isNF
+		}
+		return !isNF, isNF
+	})
+	return e.Union(cmp)
+}
+
+type c17Env struct {
+	p          *an.Prog
+	fNode      *types.Var
+	fTot       *types.Var
+	upd, comp  *ssa.Function
+	mut        map[*ssa.Function]bool
+	basic      *types.Named
+	memo       map[*ssa.Function][]c17Op
+	inProgress map[*ssa.Function]bool
+	byName     bool // merkledag sources not loaded: recognise the link mutators of ProtoNode by name
+}
+
+func (e *c17Env) isMut(call ssa.CallInstruction) bool {
+	ci := an.Callee(call)
+	if ci.Static != nil && e.mut[ci.Static] {
+		return true
+	}
+	if e.byName && ci.Recv == "ProtoNode" && strings.HasSuffix(ci.Pkg, "ipld/merkledag") {
+		switch ci.Name {
+		case "AddRawLink", "AddNodeLink", "RemoveNodeLink", "SetLinks":
+			return true
+		}
+	}
+	return false
+}
+
+func (e *c17Env) nodeOf(v ssa.Value) (ssa.Value, bool) {
+	for _, r := range an.Roots(v, nil) {
+		if fl, base := an.LoadedField(r); fl == e.fNode {
+			return base, true
+		}
+	}
+	return nil, false
+}
+
+// ops lists the operations f performs on BasicDirectory objects: the ones in
+// its own body, and — for calls of other BasicDirectory methods — the lookups
+// the callee forwards and the accounting it performs on all its normal paths,
+// expressed with the caller's values.
+func (e *c17Env) ops(f *ssa.Function, depth int) []c17Op {
+	const md = "ipld/merkledag"
+	var out []c17Op
+	for _, call := range an.AllCalls(f) {
+		g := an.Callee(call).Static
+		if g == nil {
+			continue
+		}
+		recv := an.Recv(call)
+		switch {
+		case recv != nil && (e.isMut(call) || (an.Callee(call).Recv == "ProtoNode" && an.Callee(call).Name == "GetNodeLink")):
+			dir, ok := e.nodeOf(recv)
+			if !ok {
+				continue
+			}
+			op := c17Op{at: call, call: call, direct: true, dir: dir}
+			for _, a := range an.Args(call) {
+				if an.IsString(a.Type()) && op.name == nil {
+					op.name = a
+				}
+				if an.TypeIs(a.Type(), "github.com/ipfs/go-ipld-format", "Link") {
+					op.link = a
+				}
+			}
+			switch {
+			case !e.isMut(call):
+				op.kind = "lookup"
+				op.rawErr = true
+				if rs := an.Result(call, 0); len(rs) > 0 {
+					op.link = rs[0]
+				}
+			case op.name != nil && op.link != nil:
+				op.kind = "add"
+			case op.name != nil:
+				op.kind = "remove"
+			default:
+				op.kind = "replace"
+			}
+			out = append(out, op)
+		case g == e.upd && recv != nil:
+			as := an.Args(call)
+			if len(as) == 3 {
+				out = append(out, c17Op{kind: "upd", at: call, call: call, direct: true, dir: recv, name: as[0], old: as[1], new: as[2]})
+			}
+		case g == e.comp && recv != nil:
+			out = append(out, c17Op{kind: "recompute", at: call, call: call, direct: true, dir: recv})
+		case recv != nil && depth > 0 && g.Signature.Recv() != nil && an.TypeIs(g.Signature.Recv().Type(), c16IO, "BasicDirectory") && g != f && g.Blocks != nil:
+			// helper method: summarise
+			tr := func(v ssa.Value) ssa.Value {
+				if v == nil {
+					return nil
+				}
+				if an.IsNilConst(v) {
+					return v
+				}
+				if par, ok := v.(*ssa.Parameter); ok && par.Parent() == g {
+					return an.ArgAt(call, an.ParamIndex(g, par))
+				}
+				return nil
+			}
+			rets := an.Returns(g)
+			onAllPaths := func(in ssa.Instruction) bool {
+				for _, r := range rets {
+					if g.Recover != nil && r.Block() == g.Recover {
+						continue
+					}
+					if !an.MustPrecede(g, r, []ssa.Instruction{in}) {
+						return false
+					}
+				}
+				return true
+			}
+			for _, o := range e.ops(g, depth-1) {
+				if o.dir == nil || !an.SameObj(o.dir, g.Params[0]) {
+					continue
+				}
+				switch o.kind {
+				case "lookup":
+					// forwarded: the helper returns the found link as its first result
+					var outer ssa.Value
+					for _, rs := range an.ResultSites(g, 0) {
+						if an.SameObj(rs.Val, o.link) {
+							if r0 := an.Result(call, 0); len(r0) > 0 {
+								outer = r0[0]
+							}
+						}
+					}
+					if outer == nil || tr(o.name) == nil {
+						continue
+					}
+					// can the raw not-found error of the lookup leave the helper?
+					raw := false
+					al := an.Aliases(an.ErrResult(o.call)...)
+					n := g.Signature.Results().Len()
+					nf := c17NotFoundEdges(g, al, false)
+					for _, rs := range an.ResultSites(g, n-1) {
+						isRaw := func(v ssa.Value) bool {
+							for _, r := range an.Roots(v, &an.FlowOpts{NoCells: true}) {
+								if al[r] {
+									return true
+								}
+							}
+							return al[v]
+						}
+						if fnd, grd := an.ValueGuardedBy(g, o.call, rs.At, rs.Val, isRaw, nf); fnd && !(grd && len(nf) > 0) {
+							raw = true
+						}
+					}
+					out = append(out, c17Op{kind: "lookup", at: call, call: call, dir: recv, name: tr(o.name), link: outer, rawErr: raw, via: g})
+				case "upd":
+					if onAllPaths(o.at) && tr(o.name) != nil && tr(o.old) != nil && tr(o.new) != nil {
+						out = append(out, c17Op{kind: "upd", at: call, call: call, dir: recv, name: tr(o.name), old: tr(o.old), new: tr(o.new)})
+					}
+				case "tot+", "tot-", "recompute":
+					if onAllPaths(o.at) {
+						out = append(out, c17Op{kind: o.kind, at: call, call: call, dir: recv})
+					}
+				}
+			}
+		}
+	}
+	// direct totalLinks +/- 1
+	for _, st := range an.FieldStores(f, e.fTot) {
+		_, dir := an.FieldOf(st.Addr)
+		if b, ok := st.Val.(*ssa.BinOp); ok && (b.Op == token.ADD || b.Op == token.SUB) {
+			if k, ok := an.ConstOf(b.Y); ok && k.String() == "1" {
+				if fl, _ := an.LoadedField(b.X); fl == e.fTot {
+					kind := "tot+"
+					if b.Op == token.SUB {
+						kind = "tot-"
+					}
+					out = append(out, c17Op{kind: kind, at: st, direct: true, dir: dir})
+				}
+			}
+		}
+	}
+	return out
+}
+
+// c17Accounting finds, by role, the incremental update (BasicDirectory method
+// with two *Link parameters that stores estimatedSize) and the recomputation
+// (parameterless BasicDirectory method that resets estimatedSize to 0).
+func c17Accounting(p *an.Prog, fEst *types.Var) (upd, comp *ssa.Function) {
+	upd, comp = p.Func(c16IO, "BasicDirectory", "updateEstimatedSize"), p.Func(c16IO, "BasicDirectory", "computeEstimatedSizeAndTotalLinks")
+	if fEst == nil {
+		return
+	}
+	for _, f := range p.Methods(c16IO, "BasicDirectory") {
+		if len(an.FieldStores(f, fEst)) == 0 {
+			continue
+		}
+		nLinks := 0
+		for _, par := range f.Params[1:] {
+			if an.TypeIs(par.Type(), "github.com/ipfs/go-ipld-format", "Link") {
+				nLinks++
+			}
+		}
+		if upd == nil && nLinks == 2 {
+			upd = f
+		}
+		if comp == nil && len(f.Params) == 1 {
+			for _, st := range an.FieldStores(f, fEst) {
+				if k, ok := an.ConstOf(st.Val); ok && k.String() == "0" {
+					comp = f
+				}
+			}
+		}
+	}
+	return
+}
+
+func c17IsUint64(t types.Type) bool {
+	b, ok := t.Underlying().(*types.Basic)
+	return ok && b.Kind() == types.Uint64
 }
